@@ -61,6 +61,12 @@ Judge(e) ==
         \* (a failed lookup must never be reported as "no such child" / "gone")
         <<"C08f", (e.faulted /\ Cardinality(rids) = 1 /\ reqs[1].op = "GetChildVersion" /\ resps[1].kind \notin {"error", "panic", "timeout"}) =>
                     RespMatches(UnitApply(e.cfg, seedcs, reqs[1], <<1, "m">>).resp, resps[1]) >>,
+        \* GetSnapshot while a storage step fails: never "no snapshot" for a client that has one, never another snapshot;
+        \* and the same server answers the next GetSnapshot as the stored state says
+        <<"C11f", (e.faulted /\ Cardinality(rids) = 1 /\ reqs[1].op = "GetSnapshot") =>
+                    /\ resps[1].kind \notin {"error", "panic", "timeout"} => RespMatches(UnitApply(e.cfg, seedcs, reqs[1], <<1, "m">>).resp, resps[1])
+                    /\ final = seedcs
+                    /\ FollowOK(e.cfg, final, [i \in DOMAIN e.follow |-> [req |-> e.follow[i].req, resp |-> e.follow[i].resp]], 1) >>,
         <<"C05", e.faulted =>
                    ( Cardinality(rids) = 1
                      /\ C05_Round(e.cfg, seedcs, reqs[1], resps[1], final, [i \in DOMAIN e.follow |-> [req |-> e.follow[i].req, resp |-> e.follow[i].resp]],
